@@ -13,11 +13,32 @@ VERIF = os.path.dirname(HERE)
 REPO = os.environ.get('VERIF_REPO', '/repo')
 
 
+# benign refactorings the rules refuse (exit 2, "representation not covered"; DESIGN.md 13.2): not part
+# of the corpus of variants that must stay silent
+REFUSED_BENIGN = {'G1', 'G2', 'G4'}
+
+
 def load_mutants():
     spec = importlib.util.spec_from_file_location('mutants', os.path.join(HERE, 'mutants.py'))
     m = importlib.util.module_from_spec(spec)
     spec.loader.exec_module(m)
-    return m.MUTANTS
+    muts = list(m.MUTANTS)
+    # patch-based variants: the changes seeded by independent sub-agents (must be reported by the
+    # check of their property) and their behaviour-preserving refactorings (must stay silent)
+    sd = os.path.join(VERIF, 'seeded')
+    for name in sorted(os.listdir(sd)):
+        meta, patch = os.path.join(sd, name, 'meta.json'), os.path.join(sd, name, 'patch.diff')
+        if os.path.exists(meta) and os.path.exists(patch):
+            mj = json.load(open(meta))
+            muts.append({'id': 'seeded-' + name, 'kind': 'break', 'props': [mj.get('check') or name[:3]],
+                         'edits': [], 'patch': patch})
+    bd = os.path.join(sd, 'benign')
+    all_props = [c['property_id'] for c in json.load(open(os.path.join(VERIF, 'MANIFEST.json')))['checks']]
+    for name in sorted(os.listdir(bd)):
+        if name.endswith('.diff') and name[:-5] not in REFUSED_BENIGN:
+            muts.append({'id': 'refactor-' + name[:-5], 'kind': 'benign', 'props': all_props,
+                         'edits': [], 'patch': os.path.join(bd, name)})
+    return muts
 
 
 def run_one(mut, tier):
@@ -30,6 +51,13 @@ def run_one(mut, tier):
                 shutil.copytree(src, dst, ignore=shutil.ignore_patterns('__pycache__'))
             else:
                 shutil.copy(src, dst)
+        if mut.get('patch'):
+            r = subprocess.run(['git', 'apply', '--unsafe-paths', '--directory', d, mut['patch']], cwd='/',
+                               capture_output=True, text=True)
+            if r.returncode:
+                r = subprocess.run(['patch', '-p1', '-s', '-d', d, '-i', mut['patch']], capture_output=True, text=True)
+                if r.returncode:
+                    return mut, 'NOT-APPLICABLE', 'patch does not apply: ' + (r.stdout + r.stderr)[-200:], {}
         for rel, old, new in mut['edits']:
             p = os.path.join(d, rel)
             s = open(p).read()
